@@ -28,7 +28,7 @@
 EXTENDS Integers, Sequences, SequencesExt, FiniteSets, TLC, Json
 
 CONSTANTS
-  LayoutSel,   \* "curated" | "pairs" | "mixed" : layout universe
+  LayoutSel,   \* "curated" | "few" | "quick" | "pairs" | "triples" : layout universe
   ProgSel,     \* "core" | "len1" | "len2"
   LegCounts,   \* e.g. {2, 3}
   Dirs,        \* subset of {"asc", "desc"}
@@ -151,8 +151,15 @@ PairLayouts == {<<a, b>> : a \in ObjUniverse, b \in ObjUniverse}
 SmallObjs == {<<KeyDom[i]>> : i \in 1..6} \cup {<<K1, K3>>, <<K2, KN>>, <<K2, K3>>}
 TripleLayouts == {<<a, b, c>> : a \in SmallObjs, b \in SmallObjs, c \in SmallObjs}
 
+\* quick universes
+QuickObjs == {<<KeyDom[i]>> : i \in {1, 2, 3, 5, 6}} \cup {<<K1, K3>>, <<K2, KN>>, <<KS, KM>>}
+QuickLayouts == {<<a, b>> : a \in QuickObjs, b \in QuickObjs} \cup SeqRange(Curated)
+FewLayouts == {Curated[7], Curated[13]}
+
 LayoutSet ==
   CASE LayoutSel = "curated" -> SeqRange(Curated)
+    [] LayoutSel = "quick"   -> QuickLayouts
+    [] LayoutSel = "few"     -> FewLayouts
     [] LayoutSel = "pairs"   -> PairLayouts \cup SeqRange(Curated)
     [] LayoutSel = "triples" -> TripleLayouts \cup SeqRange(Curated)
 
@@ -283,7 +290,8 @@ AllOps == {"WG", "WK", "CK", "CU", "CZ", "PY", "PK", "RZ", "DK", "DX", "SU", "SR
            "H1", "H2", "T1", "T2", "UQ", "YU", "AG", "AK", "XG", "XK", "VG", "LG", "UK", "A0", "X0"}
 CoreProgs == { <<>>, <<"WG">>, <<"WK">>, <<"CK", "H2">>, <<"PY", "T2">>, <<"H1">>, <<"H2">>, <<"T2">>, <<"SU">>, <<"SG">>,
                <<"AG">>, <<"AK">>, <<"XG">>, <<"VG">>, <<"LG">>, <<"A0">>, <<"WK", "AK">>, <<"UQ">>, <<"AG", "SG">>,
-               <<"SR", "H2">>, <<"RZ", "T1">>, <<"DK", "H2">> }
+               <<"SR", "H2">>, <<"RZ", "T1">>, <<"DK", "H2">>,
+               <<"CU">>, <<"CU", "H2">>, <<"SXR">> }      \* the last three reach the known defects F1, F2
 Progs ==
   CASE ProgSel = "core" -> CoreProgs
     [] ProgSel = "len1" -> {p \in {<<>>} \cup {<<a>> : a \in AllOps} : WellFormed(p)}
@@ -563,30 +571,15 @@ LorderTab == E([l \in LayoutSet |-> E([d \in DescSet |-> E([wk \in BOOL |->
                 LET m == MetaTab[l][d]
                 IN SelectSeq(ListerSort(Len(l), m, d), LAMBDA o : ~(wk /\ CmpV(I(2), m[o].mx, TRUE) > 0))])])])
 
-VARIABLES
-  lay, desc, prog, nleg,   \* the case (constant along a behaviour)
-  lo,                      \* Lister: objects not yet handed out (l.objects), pruned ones removed
-  stash, smin, smax,       \* Slicer: s.objects, s.min, s.max
-  parts,                   \* parts[l]: partitions (sequences of object ids) received by leg l
-  done,                    \* done[l]: leg l stopped pulling (its lifted head is satisfied)
-  served                   \* history: <<leg, objects pulled from the Lister during that Pull>>
-
-vars == <<lay, desc, prog, nleg, lo, stash, smin, smax, parts, done, served>>
-
-plan == PlanTab[prog][desc]
-rows == RowsTab[lay][desc]
-meta == MetaTab[lay][desc]
-HasWK(pl) == \E i \in 1..Len(pl.filter) : pl.filter[i] = "WK"
-lorder == LorderTab[lay][desc][HasWK(plan)]
-
-Exhausted == lo = <<>> /\ stash = <<>>
-LegSet == 1..nleg
+\* ---------------------------------------------------------------- pure step functions
+\* (shared by the Next relation below and by the trace replay of ParScanTrace.tla)
+ScanState(lor, n) == [lo |-> lor, stash |-> <<>>, smin |-> NONE, smax |-> NONE,
+                      parts |-> E([l \in 1..n |-> <<>>]), done |-> E([l \in 1..n |-> FALSE])]
+ExhaustedS(st) == st.lo = <<>> /\ st.stash = <<>>
+TerminalS(st) == ExhaustedS(st) \/ \A l \in DOMAIN st.done : st.done[l]
 
 \* leg operators before a lifted head (the head counts their output)
 LegHeadOf(pl) == IF pl.legs # <<>> /\ Kind(pl.legs[Len(pl.legs)].op) = "head" THEN Limit(pl.legs[Len(pl.legs)].op) ELSE 0
-LegHead == LegHeadOf(plan)
-LegInput(ps) == ScanStream(rows, ps, desc, plan.filter, plan.slicer)
-LegOut(ps) == ApplyOps(plan.legs, LegInput(ps))
 \* number of values that reach the lifted head of a leg holding the partitions
 \* ps: the operators in front of it are per-row, only filters drop rows
 HeadFeed(pl, rw, ps) ==
@@ -594,59 +587,90 @@ HeadFeed(pl, rw, ps) ==
       n(o) == Cardinality({j \in 1..Len(rw[o]) : Keep(pl.filter, rw[o][j]) /\ Keep(lf, rw[o][j])})
   IN SumSeq(Concat(E([i \in 1..Len(ps) |-> E([j \in 1..Len(ps[i]) |-> n(ps[i][j])])])))
 
-Terminal == Exhausted \/ \A l \in LegSet : done[l]
+\* leg l may pull: it is not done, the source is not drained, and (legs being
+\* interchangeable copies, named in order of first service) leg l-1 was served
+CanPull(st, l) == /\ ~TerminalS(st) /\ ~st.done[l]
+                  /\ IF l = 1 THEN TRUE ELSE st.parts[l-1] # <<>>
 
-SeqResult ==
-  LET ps == IF plan.slicer THEN SlicerAll(meta, lorder, <<>>, NONE, NONE) ELSE E([i \in 1..Len(lorder) |-> <<lorder[i]>>])
-      ops == Expand(prog)
-  IN ApplyOps(Plain(SubSeq(ops, Len(plan.filter) + 1, Len(ops))), ScanStream(rows, ps, desc, plan.filter, plan.slicer))
+\* One Lister.Pull / Slicer.Pull critical section by leg l: the new state and
+\* the objects taken from the Lister inside it.
+PullStep(pl, m, rw, st, l) ==
+  LET r == IF pl.slicer THEN SlicerRun(m, st.lo, st.stash, st.smin, st.smax, <<>>)
+           ELSE [part |-> <<Head(st.lo)>>, lo |-> Tail(st.lo), stash |-> <<>>, smin |-> NONE, smax |-> NONE, pulled |-> <<Head(st.lo)>>]
+      np == Append(st.parts[l], r.part)
+  IN [st |-> [lo |-> r.lo, stash |-> r.stash, smin |-> r.smin, smax |-> r.smax,
+              parts |-> [st.parts EXCEPT ![l] = np],
+              done |-> [st.done EXCEPT ![l] = LegHeadOf(pl) > 0 /\ HeadFeed(pl, rw, np) >= LegHeadOf(pl)]],
+      pulled |-> r.pulled]
+
+LegOutOf(pl, rw, d, ps) == ApplyOps(pl.legs, ScanStream(rw, ps, d, pl.filter, pl.slicer))
+ParResultOf(pl, rw, d, prts) ==
+  LET outs == E([l \in DOMAIN prts |-> LegOutOf(pl, rw, d, prts[l])])
+      fan  == IF pl.fan = "merge" THEN MergeStreams(outs, pl.mc) ELSE CombineStreams(outs)
+  IN ApplyOps(pl.tail, fan)
+SeqResultOf(pl, rw, m, lor, d, pg) ==
+  LET ps == IF pl.slicer THEN SlicerAll(m, lor, <<>>, NONE, NONE) ELSE E([i \in 1..Len(lor) |-> <<lor[i]>>])
+      ops == Expand(pg)
+  IN ApplyOps(Plain(SubSeq(ops, Len(pl.filter) + 1, Len(ops))), ScanStream(rw, ps, d, pl.filter, pl.slicer))
+
+\* known defects of the unchanged tree, modelled as coded:
+\*  F1: a cut in the legs removes the field the fan-in merges on
+\*  F2: the lifted sort puts nulls last for desc, the merge puts them first
+TaintOf(pl, rw, d, prts) ==
+  (IF pl.fan = "merge" /\ \E i \in 1..Len(pl.legs) : Kind(pl.legs[i].op) = "cut" /\ \A j \in 1..Len(CutArgs(pl.legs[i].op)) : CutArgs(pl.legs[i].op)[j][1] # pl.mc.f
+   THEN {"F1"} ELSE {})
+  \cup
+  (IF /\ pl.fan = "merge" /\ pl.legs # <<>> /\ Kind(pl.legs[Len(pl.legs)].op) = "sort"
+      /\ SortC(pl.mc.f, pl.mc.desc).nmax # pl.mc.nmax
+      /\ \E l \in DOMAIN prts : LET o == LegOutOf(pl, rw, d, prts[l]).s IN \E i \in 1..Len(o) : Nullish(Get(o[i], pl.mc.f))
+   THEN {"F2"} ELSE {})
+
+RowJson(r) == E([f \in {g \in Fields : r[g].t # "abs"} |-> r[f]])
+RowsJson(s) == E([i \in 1..Len(s) |-> RowJson(s[i])])
+
+VARIABLES
+  lay, desc, prog, nleg,   \* the case (constant along a behaviour)
+  sc,                      \* the scan state: Lister (lo), Slicer (stash, smin, smax), legs (parts, done)
+  served                   \* history: <<leg, objects pulled from the Lister during that Pull>>
+
+vars == <<lay, desc, prog, nleg, sc, served>>
+
+plan == PlanTab[prog][desc]
+rows == RowsTab[lay][desc]
+meta == MetaTab[lay][desc]
+HasWK(pl) == \E i \in 1..Len(pl.filter) : pl.filter[i] = "WK"
+lorder == LorderTab[lay][desc][HasWK(plan)]
+lo == sc.lo
+stash == sc.stash
+parts == sc.parts
+done == sc.done
+LegSet == 1..nleg
+Exhausted == ExhaustedS(sc)
+Terminal == TerminalS(sc)
 
 Init ==
   /\ lay \in LayoutSet
   /\ desc \in DescSet
   /\ prog \in Progs
   /\ nleg \in LegCounts
-  /\ lo = LorderTab[lay][desc][HasWK(PlanTab[prog][desc])]
-  /\ stash = <<>> /\ smin = NONE /\ smax = NONE
-  /\ parts = E([l \in 1..nleg |-> <<>>])
-  /\ done = E([l \in 1..nleg |-> FALSE])
+  /\ sc = ScanState(LorderTab[lay][desc][HasWK(PlanTab[prog][desc])], nleg)
   /\ served = <<>>
 
-\* One Lister.Pull / Slicer.Pull critical section by leg l.  Legs are
-\* interchangeable copies: leg l pulls for the first time only after leg l-1.
 Pull(l) ==
-  /\ ~Terminal
-  /\ ~done[l]
-  /\ IF l = 1 THEN TRUE ELSE parts[l-1] # <<>>
-  /\ LET r == IF plan.slicer THEN SlicerRun(meta, lo, stash, smin, smax, <<>>)
-              ELSE [part |-> <<Head(lo)>>, lo |-> Tail(lo), stash |-> <<>>, smin |-> NONE, smax |-> NONE, pulled |-> <<Head(lo)>>]
-         np == Append(parts[l], r.part)
-     IN /\ lo' = r.lo /\ stash' = r.stash /\ smin' = r.smin /\ smax' = r.smax
-        /\ parts' = [parts EXCEPT ![l] = np]
-        /\ served' = Append(served, <<l, r.pulled>>)
-        /\ done' = [done EXCEPT ![l] = LegHead > 0 /\ HeadFeed(plan, rows, np) >= LegHead]
+  /\ CanPull(sc, l)
+  /\ LET r == PullStep(plan, meta, rows, sc, l)
+     IN sc' = r.st /\ served' = Append(served, <<l, r.pulled>>)
   /\ UNCHANGED <<lay, desc, prog, nleg>>
 
 Next == \E l \in LegSet : Pull(l)
 Spec == Init /\ [][Next]_vars
 
 \* ---------------------------------------------------------------- results
-ParResult ==
-  LET outs == E([l \in LegSet |-> LegOut(parts[l])])
-      fan  == IF plan.fan = "merge" THEN MergeStreams(outs, plan.mc) ELSE CombineStreams(outs)
-  IN ApplyOps(plan.tail, fan)
-
-\* known defects of the unchanged tree, modelled as coded:
-\*  F1: a cut in the legs removes the field the fan-in merges on
-\*  F2: the lifted sort puts nulls last for desc, the merge puts them first
-Taint ==
-  (IF plan.fan = "merge" /\ \E i \in 1..Len(plan.legs) : Kind(plan.legs[i].op) = "cut" /\ \A j \in 1..Len(CutArgs(plan.legs[i].op)) : CutArgs(plan.legs[i].op)[j][1] # plan.mc.f
-   THEN {"F1"} ELSE {})
-  \cup
-  (IF /\ plan.fan = "merge" /\ plan.legs # <<>> /\ Kind(plan.legs[Len(plan.legs)].op) = "sort"
-      /\ SortC(plan.mc.f, plan.mc.desc).nmax # plan.mc.nmax
-      /\ \E l \in LegSet : \E i \in 1..Len(LegOut(parts[l]).s) : Nullish(Get(LegOut(parts[l]).s[i], plan.mc.f))
-   THEN {"F2"} ELSE {})
+SeqResult == SeqResultOf(plan, rows, meta, lorder, desc, prog)
+ParResult == ParResultOf(plan, rows, desc, parts)
+Taint == TaintOf(plan, rows, desc, parts)
+LegInput(ps) == ScanStream(rows, ps, desc, plan.filter, plan.slicer)
+LegOut(ps) == LegOutOf(plan, rows, desc, ps)
 
 \* ---------------------------------------------------------------- properties
 AllObjs == {lorder[i] : i \in 1..Len(lorder)}
@@ -656,19 +680,23 @@ HandedOnce ==
   /\ Handed \cup SeqRange(stash) \cup SeqRange(lo) = AllObjs
   /\ Len(lo) + Len(stash) + SumSeq(Concat(E([l \in LegSet |-> E([i \in 1..Len(parts[l]) |-> Len(parts[l][i])])]))) = Len(lorder)
 
-\* Slicer: consecutive partitions have disjoint, increasing key spans (in pool direction)
-AllParts == SlicerAll(meta, lorder, <<>>, NONE, NONE)
-Span(p) == [mn |-> CHOOSE v \in {meta[o].mn : o \in SeqRange(p)} : \A w \in {meta[o].mn : o \in SeqRange(p)} : CmpV(v, w, TRUE) <= 0,
-            mx |-> CHOOSE v \in {meta[o].mx : o \in SeqRange(p)} : \A w \in {meta[o].mx : o \in SeqRange(p)} : CmpV(v, w, TRUE) >= 0]
-PartitionsOrdered ==
-  plan.slicer => \A i \in 1..Len(AllParts) - 1 :
-     IF desc THEN CmpV(Span(AllParts[i]).mn, Span(AllParts[i+1]).mx, TRUE) > 0
-     ELSE CmpV(Span(AllParts[i]).mx, Span(AllParts[i+1]).mn, TRUE) < 0
-\* the sequential scan through the Slicer is the pool in ImportComparator order
-SlicerSorted ==
-  plan.slicer => Concat(E([i \in 1..Len(AllParts) |-> PartRows(rows, AllParts[i], desc, <<>>)]))
-                   = StableSort(Concat(E([i \in 1..Len(lorder) |-> rows[lorder[i]]])), PoolC(desc))
-InitInv == served = <<>> => PartitionsOrdered /\ SlicerSorted
+\* Slicer (checked once per layout and direction, at constant level): consecutive
+\* partitions have disjoint, increasing key spans in pool direction, and the
+\* sequential scan through the Slicer yields the pool in ImportComparator order.
+SpanOf(m, p) == [mn |-> CHOOSE v \in {m[o].mn : o \in SeqRange(p)} : \A w \in {m[o].mn : o \in SeqRange(p)} : CmpV(v, w, TRUE) <= 0,
+                 mx |-> CHOOSE v \in {m[o].mx : o \in SeqRange(p)} : \A w \in {m[o].mx : o \in SeqRange(p)} : CmpV(v, w, TRUE) >= 0]
+SlicerProps(l, d) ==
+  LET m   == MetaTab[l][d]
+      rw  == RowsTab[l][d]
+      lor == LorderTab[l][d][FALSE]
+      ps  == SlicerAll(m, lor, <<>>, NONE, NONE)
+      sp  == E([i \in 1..Len(ps) |-> SpanOf(m, ps[i])])
+  IN /\ \A i \in 1..Len(ps) - 1 :
+          IF d THEN CmpV(sp[i].mn, sp[i+1].mx, TRUE) > 0 ELSE CmpV(sp[i].mx, sp[i+1].mn, TRUE) < 0
+     /\ Concat(E([i \in 1..Len(ps) |-> PartRows(rw, ps[i], d, <<>>)]))
+          = StableSort(Concat(E([i \in 1..Len(lor) |-> rw[lor[i]]])), PoolC(d))
+     /\ Len(Concat(ps)) = Len(l)
+ASSUME \A l \in LayoutSet : \A d \in DescSet : SlicerProps(l, d)
 
 \* partial aggregation rows are combined exactly once: for a split count the
 \* final counts add up to the number of rows the legs scanned
@@ -679,17 +707,11 @@ CountConserved ==
      IN SumSeq(E([i \in 1..Len(fin.s) |-> fin.s[i]["a"].n])) = SumSeq(E([l \in LegSet |-> Len(LegInput(parts[l]).s)]))
 
 CaseJson(seq, par) ==
-  LET rowj(r) == E([f \in {g \in Fields : r[g].t # "abs"} |-> r[f]])
-  IN [lay |-> E([i \in 1..Len(lay) |-> E([j \in 1..Len(rows[i]) |-> rowj(rows[i][j])])]),
-      loads |-> E([i \in 1..Len(lay) |-> Len(lay[i])]),
-      desc |-> desc, prog |-> prog, n |-> nleg, plan |-> PlanText(plan),
-      lorder |-> lorder, 
-      served |-> E([i \in 1..Len(served) |-> [leg |-> served[i][1], objs |-> served[i][2]]]),
-      parts |-> parts,
-      seq |-> [rows |-> E([i \in 1..Len(seq.s) |-> rowj(seq.s[i])]), mode |-> Mode(seq), det |-> seq.det,
-               byf |-> seq.by.f, bydesc |-> seq.by.desc, bynmax |-> seq.by.nmax],
-      parrows |-> E([i \in 1..Len(par.s) |-> rowj(par.s[i])]),
-      taint |-> Taint]
+  [lay |-> lay, objs |-> E([i \in 1..Len(lay) |-> RowsJson(rows[i])]),
+   desc |-> desc, prog |-> prog, n |-> nleg, plan |-> PlanText(plan), lorder |-> lorder,
+   served |-> E([i \in 1..Len(served) |-> [leg |-> served[i][1], objs |-> served[i][2]]]),
+   seq |-> [rows |-> RowsJson(seq.s), mode |-> Mode(seq), det |-> seq.det, byf |-> seq.by.f],
+   parrows |-> RowsJson(par.s), taint |-> Taint]
 
 Hash == Len(served) + SumSeq(E([i \in 1..Len(served) |-> served[i][1] * i])) + Len(prog) * 7 + Len(lay) * 3 + nleg + (IF desc THEN 1 ELSE 0)
            + SumSeq(E([i \in 1..Len(lorder) |-> lorder[i] * i])) + SumSeq(E([i \in 1..Len(lay) |-> Len(lay[i]) * i * 5]))
